@@ -234,6 +234,23 @@ class RecScale(nnx.Module):
         return self.child(y) if self.child is not None else y
 
 
+@onnx_function(unique=True)
+class UView(eqx.Module):
+    """unique=True target whose parameter is a LARGE, NON-CONTIGUOUS numpy leaf (a transposed view, as left
+    behind by porting an (out, in) checkpoint); twins differ in ONE element in the middle of the array."""
+
+    w: np.ndarray
+
+    def __init__(self, seed: int, mid: float = 0.0):
+        base = (W((48, 48), seed) * 0.05).astype(np.float32)
+        base[24, 20] += np.float32(mid)
+        self.w = base.T  # Fortran-ordered view of `base`
+
+    def __call__(self, x):
+        h = jnp.concatenate([x] * 12, axis=-1)
+        return (h @ jnp.asarray(self.w))[..., :4]
+
+
 @onnx_function
 class BaseAffine(nnx.Module):
     def __init__(self, d: int, seed: int):
